@@ -34,11 +34,13 @@ def main():
         expect = m.get('caught', True)
         # a change outside the targeted statement may be reported elsewhere
         prop = m['property']
+        # a plain copy of the source tree (several shards may run at once;
+        # git worktrees of one repository cannot be added concurrently)
         scratch = f'/tmp/seedreg.{sid}'
-        sh(f'git -C /repo worktree remove --force {scratch}')
-        code, out = sh(f'git -C /repo worktree add -q --detach {scratch} HEAD')
+        sh(f'rm -rf {scratch}; mkdir -p {scratch} && '
+           f'cp -r /repo/src {scratch}/src')
         try:
-            code, out = sh(f'git -C {scratch} apply '
+            code, out = sh(f'cd {scratch} && git apply '
                            f'{os.path.dirname(meta_path)}/patch.diff')
             if code != 0:
                 print(f'{sid}: patch does not apply any more')
@@ -56,7 +58,7 @@ def main():
                       f"{'as expected' if ok else 'UNEXPECTED'} "
                       f"{first[:60]}", flush=True)
         finally:
-            sh(f'git -C /repo worktree remove --force {scratch}')
+            sh(f'rm -rf {scratch}')
     print(f'{bad} unexpected')
     return 1 if bad else 0
 
